@@ -60,7 +60,7 @@ func execLine(line string) (ans string) {
 			if strings.HasPrefix(ans, "panic ") {
 				return
 			}
-			if da > 4<<20+64*uint64(len(line)) {
+			if da > 8<<20+256*uint64(len(line)) {
 				ans = fmt.Sprintf("RESOURCE allocated %d octets for an operation line of %d", da, len(line))
 			} else if dt > 10*time.Second+time.Duration(len(line))*100*time.Microsecond {
 				ans = fmt.Sprintf("RESOURCE took %s for an operation line of %d", dt.Round(time.Millisecond), len(line))
